@@ -4,6 +4,7 @@ import (
 	"fmt"
 	"go/ast"
 	"go/token"
+	"go/types"
 	"strconv"
 	"strings"
 )
@@ -84,6 +85,176 @@ func mvStringLits(n ast.Node) []string {
 		return true
 	})
 	return out
+}
+
+// mvIsZero: the integer literal 0
+func mvIsZero(e ast.Expr) bool {
+	v, ok := mvInt(e)
+	return ok && v == 0
+}
+
+// mvConjuncts flattens a chain of `&&` (parentheses removed).
+func mvConjuncts(e ast.Expr) []ast.Expr {
+	for {
+		pe, ok := e.(*ast.ParenExpr)
+		if !ok {
+			break
+		}
+		e = pe.X
+	}
+	if be, ok := e.(*ast.BinaryExpr); ok && be.Op == token.LAND {
+		return append(mvConjuncts(be.X), mvConjuncts(be.Y)...)
+	}
+	return []ast.Expr{e}
+}
+
+// mvIsGetDuration: `<v>.getDuration()`
+func mvIsGetDuration(e ast.Expr, v string) bool {
+	call, ok := e.(*ast.CallExpr)
+	if !ok || len(call.Args) != 0 {
+		return false
+	}
+	se, ok := call.Fun.(*ast.SelectorExpr)
+	if !ok || se.Sel.Name != "getDuration" {
+		return false
+	}
+	id, ok := se.X.(*ast.Ident)
+	return ok && id.Name == v
+}
+
+// mvPositive: `x > 0`, `x != 0`, `0 < x`, `0 != x` for an x accepted by isX
+func mvPositive(e ast.Expr, isX func(ast.Expr) bool) bool {
+	be, ok := e.(*ast.BinaryExpr)
+	if !ok {
+		return false
+	}
+	switch {
+	case (be.Op == token.GTR || be.Op == token.NEQ) && isX(be.X) && mvIsZero(be.Y):
+		return true
+	case (be.Op == token.LSS || be.Op == token.NEQ) && mvIsZero(be.X) && isX(be.Y):
+		return true
+	}
+	return false
+}
+
+// mvUint64Of: `uint64(<x>)` -> x
+func mvUint64Of(e ast.Expr) (ast.Expr, bool) {
+	call, ok := e.(*ast.CallExpr)
+	if !ok || len(call.Args) != 1 {
+		return nil, false
+	}
+	id, ok := call.Fun.(*ast.Ident)
+	if !ok || id.Name != "uint64" {
+		return nil, false
+	}
+	return call.Args[0], true
+}
+
+// mvBandwidthGuards recognises bandwidth() with or without each of the two guards of the F13 repair
+// and aborts on any other shape.
+func mvBandwidthGuards(fd *ast.FuncDecl) (skipsZeroDuration, guardsZeroTotal bool) {
+	body := fd.Body.List
+	ri := -1
+	for i, st := range body {
+		if _, ok := st.(*ast.RangeStmt); ok {
+			if ri >= 0 {
+				fatalf("bandwidth: more than one range loop")
+			}
+			ri = i
+		}
+	}
+	if ri < 0 {
+		fatalf("bandwidth: no range loop over the segments")
+	}
+	// statements before the loop: `if len(segments) == 0 { return 0, 0 }` and declarations
+	for i, st := range body[:ri] {
+		switch x := st.(type) {
+		case *ast.DeclStmt:
+		case *ast.IfStmt:
+			if i != 0 || types.ExprString(x.Cond) != "len(segments) == 0" {
+				fatalf("bandwidth: unexpected `if %s` before the loop", types.ExprString(x.Cond))
+			}
+		default:
+			fatalf("bandwidth: unexpected statement before the loop")
+		}
+	}
+	rs := body[ri].(*ast.RangeStmt)
+	segVar, ok := rs.Value.(*ast.Ident)
+	if !ok || len(rs.Body.List) != 1 {
+		fatalf("bandwidth: unexpected loop shape")
+	}
+	is, ok := rs.Body.List[0].(*ast.IfStmt)
+	if !ok || is.Else != nil || is.Init == nil {
+		fatalf("bandwidth: the loop body is not a single `if _, ok := seg.(*muxerGap); …`")
+	}
+	if as, ok := is.Init.(*ast.AssignStmt); !ok || len(as.Rhs) != 1 || types.ExprString(as.Rhs[0]) != segVar.Name+".(*muxerGap)" {
+		fatalf("bandwidth: the loop's `if` does not test for *muxerGap")
+	}
+	notGap := false
+	for _, c := range mvConjuncts(is.Cond) {
+		switch {
+		case types.ExprString(c) == "!ok":
+			notGap = true
+		case mvPositive(c, func(e ast.Expr) bool { return mvIsGetDuration(e, segVar.Name) }):
+			skipsZeroDuration = true
+		default:
+			fatalf("bandwidth: unexpected condition %q in the loop", types.ExprString(c))
+		}
+	}
+	if !notGap {
+		fatalf("bandwidth: the loop no longer skips gaps")
+	}
+	// the per-segment division is by the segment's own duration, inside that `if`
+	perSeg := false
+	ast.Inspect(is.Body, func(n ast.Node) bool {
+		if be, ok := n.(*ast.BinaryExpr); ok && be.Op == token.QUO {
+			if x, ok := mvUint64Of(be.Y); ok && mvIsGetDuration(x, segVar.Name) {
+				perSeg = true
+			} else {
+				fatalf("bandwidth: division by %q inside the loop", types.ExprString(be.Y))
+			}
+		}
+		return true
+	})
+	if !perSeg {
+		fatalf("bandwidth: per-segment division not found")
+	}
+	// after the loop: [guard] ; avg := … / uint64(total) ; return a, b
+	rest := body[ri+1:]
+	if len(rest) != 2 && len(rest) != 3 {
+		fatalf("bandwidth: %d statements after the loop", len(rest))
+	}
+	asg, ok := rest[len(rest)-2].(*ast.AssignStmt)
+	ret, ok2 := rest[len(rest)-1].(*ast.ReturnStmt)
+	if !ok || !ok2 || len(asg.Rhs) != 1 || len(ret.Results) != 2 {
+		fatalf("bandwidth: unexpected tail")
+	}
+	quo, ok := asg.Rhs[0].(*ast.BinaryExpr)
+	if !ok || quo.Op != token.QUO {
+		fatalf("bandwidth: the average is not a division")
+	}
+	totalX, ok := mvUint64Of(quo.Y)
+	total, ok2 := totalX.(*ast.Ident)
+	if !ok || !ok2 {
+		fatalf("bandwidth: the average is not divided by uint64(<total duration>)")
+	}
+	if len(rest) == 3 {
+		g, ok := rest[0].(*ast.IfStmt)
+		if !ok || g.Init != nil || g.Else != nil || len(g.Body.List) != 1 {
+			fatalf("bandwidth: unexpected statement between the loop and the average")
+		}
+		isTotal := func(e ast.Expr) bool { id, ok := e.(*ast.Ident); return ok && id.Name == total.Name }
+		c, ok := g.Cond.(*ast.BinaryExpr)
+		zero := ok && ((c.Op == token.EQL && isTotal(c.X) && mvIsZero(c.Y)) || (c.Op == token.EQL && mvIsZero(c.X) && isTotal(c.Y)) ||
+			(c.Op == token.LEQ && isTotal(c.X) && mvIsZero(c.Y)))
+		gr, ok2 := g.Body.List[0].(*ast.ReturnStmt)
+		if !zero || !ok2 || len(gr.Results) != 2 || !mvIsZero(gr.Results[1]) ||
+			types.ExprString(gr.Results[0]) != types.ExprString(ret.Results[0]) {
+			fatalf("bandwidth: the statement before the average is not `if %s == 0 { return %s, 0 }`", total.Name, types.ExprString(ret.Results[0]))
+		}
+		guardsZeroTotal = true
+	}
+	return skipsZeroDuration, guardsZeroTotal
 }
 
 func genMvGen(r *repo) string {
@@ -197,6 +368,20 @@ func genMvGen(r *repo) string {
 		fmt.Fprintf(&b, "def versionMPEGTS : Nat := %d\ndef versionOther : Nat := %d\n", verTS, verOther)
 		fmt.Fprintf(&b, "def independentSegments : Bool := %s\n", indep)
 		fmt.Fprintf(&b, "/-- number of elements of the `Variants:` literal -/\ndef variantsLiteralLen : Nat := %d\n\n", nVariants)
+	}
+
+	// --- bandwidth(): the two guards of the F13 repair.
+	//   for _, seg := range segments { if _, ok := seg.(*muxerGap); !ok [&& seg.getDuration() > 0] { … / uint64(seg.getDuration()) … } }
+	//   [if durations == 0 { return int(maxBandwidth), 0 }]
+	//   averageBandwidth := … / uint64(durations); return int(maxBandwidth), int(averageBandwidth)
+	// Any other shape aborts the extraction.
+	{
+		fd := p.mustFunc("", "bandwidth")
+		skips, guards := mvBandwidthGuards(fd)
+		b.WriteString("/-- `bandwidth()` (" + p.fset.Position(fd.Pos()).String() + "): the loop's `if` carries the conjunct `seg.getDuration() > 0` -/\n")
+		fmt.Fprintf(&b, "def bandwidthSkipsZeroDuration : Bool := %v\n", skips)
+		b.WriteString("/-- `bandwidth()`: `if durations == 0 { return int(maxBandwidth), 0 }` precedes the final division -/\n")
+		fmt.Fprintf(&b, "def bandwidthGuardsZeroTotal : Bool := %v\n\n", guards)
 	}
 
 	// --- populateMultivariantPlaylist: mv.Audio = "audio", rendition literal
